@@ -12,7 +12,11 @@ sanitised by the harness).  `-` is the empty list.
     spec  = `name|p=1,q=3|d1,d2|M or N|m1,m2`   (a raw descriptor)
           | `@key|prop|extra1,extra2`            (an instance of the generated table)
     mode 2 applies `prepare2D` first (`2F`: the value of `with heading` is a vector field)
-    -> `ok <assign> <modifier> <trace> <final>` | `err <kind>`
+    class may carry a third part `|s1,s2`: the properties whose final value needs sampling
+    -> `ok <assign> <modifier> <trace> <final> <constProps>` | `err <kind>`
+       constProps = the model's `constProps` (defaulted properties that are not sampled)
+* `override <class> <dyn> <props> <spec>*`  (`Constructible._override`; only the finals of class are used)
+    -> `ok <final> <untouched>` | `refused dynamic|noprop` | `err <kind>`
        final = the context after the evaluation loop (property=producer of its value), or
        `evalerr:depNotFinal:<node>:<prop>` / `evalerr:assertFail:<node>:<prop>`
 * `entry <key>` -> the table entry as a raw descriptor
@@ -46,13 +50,17 @@ def parseSpec (tok : String) : Option Spec :=
       pure ⟨name, pr, splitL "," deps, m == "M", splitL "," mods⟩
     | _ => none
 
-def parseClass (tok : String) : Option ClassInfo :=
+def parseClassCore (defs finals : String) : Option ClassInfo := do
+  let ds ← (splitL ";" defs).mapM fun e => match e.splitOn ":" with
+    | [p, d] => some (p, splitL "," d)
+    | _ => none
+  pure ⟨ds, splitL "," finals⟩
+
+/-- `defaults|finals` or `defaults|finals|sampled` (the properties whose final value needs sampling) -/
+def parseClass (tok : String) : Option (ClassInfo × List String) :=
   match tok.splitOn "|" with
-  | [defs, finals] => do
-    let ds ← (splitL ";" defs).mapM fun e => match e.splitOn ":" with
-      | [p, d] => some (p, splitL "," d)
-      | _ => none
-    pure ⟨ds, splitL "," finals⟩
+  | [defs, finals] => (parseClassCore defs finals).map fun c => (c, [])
+  | [defs, finals, sampled] => (parseClassCore defs finals).map fun c => (c, splitL "," sampled)
   | _ => none
 
 def showNode : Node → String
@@ -97,11 +105,21 @@ def parseDecl (tok : String) : Option ClassDecl :=
 def handle : List String → String
   | "resolve" :: mode :: cls :: specs =>
     match parseClass cls, specs.mapM parseSpec with
-    | some C, some S =>
+    | some (C, sampled), some S =>
       let S := if mode.startsWith "2" then prepare2D (facingFor (mode == "2F")) S else S
       match resolve C S with
-      | .ok o => showOutcome o ++ " " ++ showEval (evaluate C S o)
+      | .ok o => showOutcome o ++ " " ++ showEval (evaluate C S o) ++ " " ++
+          joinL "," (constProps (fun p => sampled.contains p) o)
       | .error e => "err " ++ showErr e
+    | _, _ => "bad-op"
+  | "override" :: cls :: dyn :: props :: specs =>
+    match parseClass cls, specs.mapM parseSpec with
+    | some (C, _), some S =>
+      match override C (splitL "," dyn) (splitL "," props) S with
+      | .refused .dynamicProp => "refused dynamic"
+      | .refused .noSuchProp => "refused noprop"
+      | .resolveErr e => "err " ++ showErr e
+      | .ok o => "ok " ++ showEval (evaluate (overrideClass C (splitL "," props)) S o) ++ " " ++ joinL "," (defaulted o)
     | _, _ => "bad-op"
   | ["entry", key] =>
     match Scenic.Gen.specTable.find? (fun e => e.key = key) with
